@@ -137,6 +137,16 @@ fn enumerate_faults(base: &v1::Instance) -> Vec<Fault> {
             v.push(fault(format!("undefined-id removed[{i}]/{tpl}"), "undefined-id@removed", true, None, move |m| add_undefined(&mut m.removed_constraints[i].constraint.as_mut().unwrap().function, UNDEF, tpl)));
         }
     }
+    // an undefined id that agrees with a defined one in its low 32 bits (block << 32 | index numbering)
+    if let Some(r) = base.decision_variables.iter().map(|v| v.id).find(|id| *id < 64) {
+        let alias = (1u64 << 32) + r;
+        if !base.decision_variables.iter().any(|v| v.id == alias) {
+            v.push(fault("undefined-id objective/alias".into(), "undefined-id@objective/aliases-defined-id-mod-2^32", true, None, move |m| add_undefined(&mut m.objective, alias, 1)));
+            for i in 0..na {
+                v.push(fault(format!("undefined-id constraint[{i}]/alias"), "undefined-id@constraint/aliases-defined-id-mod-2^32", true, None, move |m| add_undefined(&mut m.constraints[i].function, alias, 1)));
+            }
+        }
+    }
     // required fields
     v.push(fault("sense-unspecified".into(), "unset-sense", false, Some(("UnspecifiedEnum", "sense")), |m| m.sense = 0));
     v.push(fault("objective-absent".into(), "unset-objective", false, Some(("MissingField", "objective")), |m| m.objective = None));
@@ -401,6 +411,8 @@ fn check_faulted(base: &v1::Instance, faults: &[&Fault], ctx: &mut Ctx) -> PResu
     }
 }
 
+const BIG_BASES: [(usize, usize); 5] = [(15, 16), (17, 18), (18, 17), (33, 32), (20, 33)];
+
 impl Property for C08 {
     fn id(&self) -> &'static str {
         "C08"
@@ -413,14 +425,96 @@ impl Property for C08 {
         let mut v: Vec<String> = [
             "dup-variable-id", "dup-constraint-id@active", "dup-constraint-id@active/removed", "dup-constraint-id@removed", "undefined-id@objective", "undefined-id@constraint", "undefined-id@removed", "unset-sense", "unset-objective",
             "unset-objective-oneof", "unset-constraint-function", "unset-constraint-function-oneof", "unset-equality", "unset-removed-constraint", "unset-removed-function", "unset-removed-function-oneof", "unset-removed-equality", "unset-kind",
-            "bound-nan-lower", "bound-nan-upper", "bound-lower=+inf", "bound-upper=-inf", "bound-lower>upper", "bound-lower>upper-by-one-ulp", "undefined-id@objective/zero-coefficient", "hint-undefined-constraint", "hint-added-undefined-constraint", "hint-added-undefined-constraint@no-active-constraints", "hint-undefined-variable", "hint-repeated-variable", "hint-repeated-big-m", "dependency-key-undefined",
+            "bound-nan-lower", "bound-nan-upper", "bound-lower=+inf", "bound-upper=-inf", "bound-lower>upper", "bound-lower>upper-by-one-ulp", "undefined-id@objective/zero-coefficient", "undefined-id@objective/aliases-defined-id-mod-2^32", "hint-undefined-constraint", "hint-added-undefined-constraint", "hint-added-undefined-constraint@no-active-constraints", "hint-undefined-variable", "hint-repeated-variable", "hint-repeated-big-m", "dependency-key-undefined",
             "dependency-function-unset",
         ]
         .iter()
         .map(|s| format!("fault={s}"))
         .collect();
-        v.extend(["pair", "valid-base", "permuted", "parametric", "bound=absent", "bound=absent-binary", "hints", "content-sensitivity", "bound=signed-zero"].iter().map(|s| s.to_string()));
+        v.extend(["pair", "valid-base", "permuted", "parametric", "bound=absent", "bound=absent-binary", "hints", "content-sensitivity", "bound=signed-zero", "sweep=big-base"].iter().map(|s| s.to_string()));
         v
+    }
+    fn sweep_len(&self, _tier: Tier) -> usize {
+        BIG_BASES.len()
+    }
+    fn sweep_description(&self) -> Option<String> {
+        Some("bases with 15..33 variables and 15..33 constraints (part of them removed): accepted as they are; every ordered pair of positions for a duplicated variable id and for a duplicated constraint id rejected by validate() and by the typed conversion".into())
+    }
+    fn sweep_case(&self, _tier: Tier, i: usize, ctx: &mut Ctx) -> PResult {
+        let (nv, nc) = BIG_BASES[i];
+        ctx.label("sweep=big-base");
+        ctx.nontrivial();
+        ctx.fp_dbg(&("big-base", nv, nc));
+        ctx.sample_with(|| json!({"sweep": "big base", "variables": nv, "constraints": nc}));
+        let mut base = v1::Instance::default();
+        base.sense = SENSE_MIN;
+        for k in 0..nv as u64 {
+            let mut v = v1::DecisionVariable::default();
+            v.id = 2 * k + 1;
+            v.kind = [KIND_CONTINUOUS, KIND_INTEGER, KIND_BINARY][k as usize % 3];
+            base.decision_variables.push(v);
+        }
+        base.objective = Some(crate::mk::flin(crate::mk::linear(vec![(1, 1.0)], 0.0)));
+        let n_removed = nc / 5;
+        for j in 0..nc as u64 {
+            let mut c = v1::Constraint::default();
+            c.id = 3 * j + 2;
+            c.equality = if j % 2 == 0 { EQ_ZERO } else { LE_ZERO };
+            c.function = Some(crate::mk::flin(crate::mk::linear(vec![(2 * (j % nv as u64) + 1, 1.0)], -(j as f64))));
+            if (j as usize) < nc - n_removed {
+                base.constraints.push(c);
+            } else {
+                let mut rc = v1::RemovedConstraint::default();
+                rc.constraint = Some(c);
+                rc.removed_reason = "relaxed".into();
+                base.removed_constraints.push(rc);
+            }
+        }
+        if let Err(e) = base.validate() {
+            return fail("C08/big-base/valid-rejected", format!("validate() rejected the well-formed big base ({nv} variables, {nc} constraints): {e:#}"));
+        }
+        if let Err(e) = ommx::Instance::try_from(base.clone()) {
+            return fail("C08/big-base/typed-rejected", format!("typed conversion rejected the well-formed big base ({nv} variables, {nc} constraints): {e:?}"));
+        }
+        let na = base.constraints.len();
+        // duplicated constraint id: position a takes the id of position b (positions count active first, then removed)
+        let cid = |m: &v1::Instance, p: usize| if p < na { m.constraints[p].id } else { m.removed_constraints[p - na].constraint.as_ref().unwrap().id };
+        for a in 0..nc {
+            for b in 0..nc {
+                if a == b {
+                    continue;
+                }
+                let mut m = base.clone();
+                let id = cid(&m, b);
+                if a < na {
+                    m.constraints[a].id = id;
+                } else {
+                    m.removed_constraints[a - na].constraint.as_mut().unwrap().id = id;
+                }
+                if m.validate().is_ok() {
+                    return fail("C08/big-base/validate-accepted/dup-constraint-id", format!("validate() accepted a duplicated constraint id: position {a} <- id of position {b} in a base with {na} active and {} removed constraints", nc - na));
+                }
+                if (a + 3 * b) % 7 == 0 && ommx::Instance::try_from(m).is_ok() {
+                    return fail("C08/big-base/typed-accepted/dup-constraint-id", format!("typed conversion accepted a duplicated constraint id: position {a} <- id of position {b}"));
+                }
+            }
+        }
+        for a in 0..nv {
+            for b in 0..nv {
+                if a == b {
+                    continue;
+                }
+                let mut m = base.clone();
+                m.decision_variables[a].id = m.decision_variables[b].id;
+                if m.validate().is_ok() {
+                    return fail("C08/big-base/validate-accepted/dup-variable-id", format!("validate() accepted a duplicated variable id: position {a} <- id of position {b} of {nv}"));
+                }
+                if (a + 3 * b) % 7 == 0 && ommx::Instance::try_from(m).is_ok() {
+                    return fail("C08/big-base/typed-accepted/dup-variable-id", format!("typed conversion accepted a duplicated variable id: position {a} <- id of position {b}"));
+                }
+            }
+        }
+        Ok(())
     }
     fn cases(&self, tier: Tier) -> usize {
         match tier {
